@@ -17,6 +17,9 @@ import (
 type expected struct {
 	c      chan *Conn
 	cancel context.CancelFunc
+	// done is closed when the Expect call that registered the entry has returned
+	// (or has been replaced): nobody receives from c any more.
+	done <-chan struct{}
 }
 
 // Listener is an implementation of net.Listener that is used to accept
@@ -62,8 +65,19 @@ func (l *Listener) Expect(ctx context.Context, from jid.JID, sid string) (net.Co
 	e.c = make(chan *Conn)
 	ctx, cancel := context.WithCancel(ctx)
 	e.cancel = cancel
+	e.done = ctx.Done()
 	l.expected[key] = e
 	l.eLock.Unlock()
+	// However this call ends, tell the handler that nobody waits for the stream
+	// any more and forget the entry (unless a newer call has replaced it).
+	defer func() {
+		cancel()
+		l.eLock.Lock()
+		if cur, ok := l.expected[key]; ok && cur.c == e.c {
+			delete(l.expected, key)
+		}
+		l.eLock.Unlock()
+	}()
 
 	select {
 	case <-ctx.Done():
